@@ -13,6 +13,7 @@ TRUSTED = [
     "Coq 8.16.1 kernel + vm_compute; theorems in coq/Props/C01.v (Print Assumptions: closed under the global context)",
     "hand-written Gallina models Model/Binary.v (serializers.h/_binary.py/binary.md), Model/CodedCpp.v (coded_stream.h), Model/CodedPy.v (_binary.py coded streams) and Model/PyTyped.v (the serializer classes of _binary.py as programs over the coded stream), tied to the code by differential execution on generated packages and op scripts and, for PyTyped, by comparing call by call with the calls a spying CodedOutputStream records while generated Python writes (harness/py/gen_runner.py, class Spy)",
     "harness: package/value generators, reference encoder (re-checked against Model.Binary.enc inside Coq on every case), C++ shims for xtensor/date (shims/), g++ 12, CPython 3.11 + numpy (python3-vt)",
+    "Model/ZigZagBits.v transcribes the shift/xor zig-zag expressions of coded_stream.h, _binary.py and the MATLAB coded streams; zigzag_text_tie compares the texts on every run (C / Python / MATLAB operator semantics on fixed-width and unbounded integers are as modelled: arithmetic right shift of negatives, unsigned wrap-around)",
     "C++ object layout behind IsTriviallySerializable (memcpy = field concatenation) is an assumption validated only by the differential runs",
 ]
 
@@ -623,6 +624,71 @@ def boundary_layer(ctx, offsets, cpp=True):
         gp.py_stop()
 
 
+ZZ_TEXT = {   # the expressions Model/ZigZagBits.v transcribes (whitespace-normalised)
+    "cpp:ZigZagEncode32": "return (static_cast<uint32_t>(v) << 1) ^ static_cast<uint32_t>(v >> 31);",
+    "cpp:ZigZagEncode64": "return (static_cast<uint64_t>(v) << 1) ^ static_cast<uint64_t>(v >> 63);",
+    "cpp:ZigZagDecode32": "return static_cast<int32_t>((n >> 1) ^ (~(n & 1) + 1));",
+    "cpp:ZigZagDecode64": "return static_cast<int64_t>((n >> 1) ^ (~(n & 1) + 1));",
+    "py:zigzag_encode": "int_val = int(value) return (int_val << 1) ^ (int_val >> 63)",
+    "py:zigzag_decode": "return (value >> 1) ^ -(value & 1)",
+    "matlab:zigzag_encode": "int_val = int64(value); res = bitxor(bitshift(int_val, 1), bitshift(int_val, -63));",
+    "matlab:zigzag_decode": "value = uint64(value); res = bitxor(int64(bitshift(value, -1)), -int64(bitand(value, 1)));",
+}
+
+
+def zigzag_text_tie(ctx):
+    """translator-level tie of Model.ZigZagBits: the shift/mask/xor expressions of the three runtimes are the ones the model
+    transcribes (theorems C01_zigzag_bits_*).  When the Python text differs its return expression is evaluated on edge integers
+    against the arithmetic zig-zag to look for a failing input; C++ differences are left to the byte layers that follow."""
+    import re
+    from vlib import REPO
+    base = os.path.join(REPO, "tooling", "internal")
+    norm = lambda t: " ".join(t.split())
+    found = {}
+    try:
+        cpp = open(os.path.join(base, "cpp", "include", "detail", "binary", "coded_stream.h")).read()
+        for m in re.finditer(r"static u?int(?:32|64)_t (ZigZag(?:En|De)code(?:32|64))\(u?int(?:32|64)_t \w+\) \{\n(.*?)\n  \}", cpp, re.S):
+            found["cpp:" + m.group(1)] = norm(m.group(2))
+        py = open(os.path.join(base, "python", "static_files", "_binary.py")).read()
+        for m in re.finditer(r"    def (zigzag_(?:en|de)code)\((.*?)\) -> int:\n(.*?)\n\n", py, re.S):
+            found["py:" + m.group(1)] = norm(m.group(3))
+        for fn, name in (("CodedOutputStream.m", "zigzag_encode"), ("CodedInputStream.m", "zigzag_decode")):
+            mt = open(os.path.join(base, "matlab", "static_files", "+binary", fn)).read()
+            m = re.search(r"function res = %s\(~, value\)\n(.*?)\n        end" % name, mt, re.S)
+            if m:
+                found["matlab:" + name] = norm(m.group(1))
+    except OSError as e:
+        found = {"error": str(e)}
+    zz = lambda v: 2 * v if v >= 0 else -2 * v - 1
+    unzz = lambda n: n // 2 if n % 2 == 0 else -((n + 1) // 2)
+    for key, want in ZZ_TEXT.items():
+        got = found.get(key)
+        ctx.count("zigzag_text", "as modelled" if got == want else "different")
+        if got == want:
+            continue
+        broken = "correspondence Model.ZigZagBits vs %s (theorems C01_zigzag_bits_*)" % key
+        if key.startswith("py:") and got:
+            expr = got.split("return", 1)[-1].strip()
+            edges = sorted(set(e + d for e in (0, 1, 2 ** 7, 2 ** 31, 2 ** 32, 2 ** 62, 2 ** 63 - 2) for d in (-2, -1, 0, 1)))
+            ins = [x for e in edges for x in (e, -e - 1)] if key.endswith("encode") else [x for e in edges if e >= 0 for x in (e, 2 ** 64 - 1 - e)]
+            for x in ins:
+                try:
+                    r = eval(expr, {"int_val": x, "value": x})
+                except Exception as ex:           # noqa: BLE001
+                    r = "exception %r" % ex
+                exp = zz(x) if key.endswith("encode") else unzz(x)
+                if r != exp:
+                    ctx.report("zigzag:" + key, "%s(%d) = %s, zig-zag says %d" % (key, x, r, exp),
+                               {"layer": "zigzag", "function": key, "input": x, "observed": str(r), "expected": exp, "text": got})
+                    break
+            else:
+                ctx.report("zigzag-text:" + key, "the text of %s is not the expression Model.ZigZagBits transcribes" % key,
+                           {"found": got, "modelled": want, "broken": broken}, no_input=True)
+        else:
+            ctx.report("zigzag-text:" + key, "the text of %s is not the expression Model.ZigZagBits transcribes" % key,
+                       {"found": got, "modelled": want, "broken": broken}, no_input=True)
+
+
 def run(ctx):
     ctx.build_repo(need_hook=True)
     ok, failing, log = ctx.coq_props("C01")
@@ -636,6 +702,7 @@ def run(ctx):
     if not ok:
         ctx.report("proof:" + str(failing), "theorem/dependency no longer checks: %s" % failing,
                    {"broken": failing, "log": log[-3000:]}, no_input=True)
+    zigzag_text_tie(ctx)
     quick = ctx.tier == "quick"
     cpp_writer_layer(ctx, 60 if quick else 600)
     py_writer_layer(ctx, 80 if quick else 800)
